@@ -46,6 +46,19 @@ var baseDocs = []baseDoc{
 	{`<svg a=novalue></svg>`, false, false},
 	{`<a></b>`, false, false},
 	{`<svg><rect x="1"</svg>`, false, false},
+	// unparsable for reasons other than a syntax error inside the markup (seed C15-10: error reporting
+	// that assumes a syntax error): declarations the parser refuses, stray bytes, bare end tags, NULs
+	{"<?xml version=\"1.0\" encoding=\"ISO-8859-1\"?>\n<svg><rect id=\"r\"/></svg>", false, false},
+	{"<?xml version=\"1.1\"?><svg/>", false, false},
+	{"<?xml version=\"1.0\" encoding=\"UTF-16\"?><svg/>", false, false},
+	{"<?xml version='1.0' encoding='windows-1252'?><svg></svg>", false, false},
+	{"\xff\xfe<\x00s\x00v\x00g\x00/\x00>\x00", false, false},
+	{"<svg>\x00</svg>", false, false},
+	{"</svg>", false, false},
+	{"<svg>&undefined;</svg>", false, false},
+	{"<svg><![CDATA[x</svg>", false, false},
+	{"<svg a=\"1\" a=\"2\"", false, false},
+	{"<!DOCTYPE svg [<!ENTITY x \"y\">", false, false},
 }
 
 // ---- independent XML reading (encoding/xml)
